@@ -7,10 +7,14 @@ only legal move that agrees; `san_ambiguity_reported`, `san_simple_resolve`, `sa
 legal moves agree the result is `Ambiguity` naming two such moves, never a silent choice; `makeSanMove_ok`,
 `makeSanStr_ok`, `makeSan_valid`, `makeSan_no_trap` — the SAN make-likes are legal steps (this completes C02 and C13
 for the SAN paths).
-Output side (formatting is the standard notation, distinct moves get distinct texts, text round trip): differential
-against `Spec.San.write` / `Spec.San.denotes` only — not yet a theorem.
+Output side (Lemmas/SanOutput, proved for every valid position and every legal move): `san_output_standard` — the
+text produced is exactly the rules' standard notation `Spec.San.write` (piece letter, the minimal file / rank / square
+disambiguation computed among legal moves only, capture mark, promotion suffix, castling symbols, `+` iff the opponent
+is in check with a legal move, `#` iff in check with none); `san_output_roundtrip` — the text parses back, in the same
+position, to the same SAN value and the same move; `san_output_injective` — distinct legal moves get distinct texts.
 -/
 import OwlModel.Lemmas.SanSound
+import OwlModel.Lemmas.SanOutput
 
 namespace Owl.Props.C09
 open Owl Owl.Impl Owl.Lemmas Owl.Props
@@ -34,5 +38,21 @@ theorem san_ambiguity (b : Board) (hv : Valid b) (d : SanData)
 theorem san_make_likes (b : Board) (hv : Valid b) :
     (∀ m, C13.MakeLikeOk b (makeSanMove b m)) ∧ (∀ s, C13.MakeLikeOk b (makeSanStr b s)) :=
   ⟨fun m => makeSanMove_ok b hv m, fun s => makeSanStr_ok b hv s⟩
+
+/-- C09 (output is the standard notation) -/
+theorem san_output_standard (b : Board) (hv : Valid b) (sm : Spec.Move) (hl : sm ∈ Spec.legalMoves (abs b.r)) :
+    ∃ s, sanFromMove (concMove sm) b = .ok s ∧ fmtSan s = .ok (Spec.San.write (abs b.r) sm) :=
+  san_text_standard' b hv sm hl
+
+/-- C09 (round trip through text) -/
+theorem san_output_roundtrip (b : Board) (hv : Valid b) (mv : Move) (hl : Legal b mv) :
+    ∃ sm t, sanFromMove mv b = .ok sm ∧ sanDataFromMove mv b = .ok sm.data ∧ fmtSan sm = .ok t
+      ∧ parseSan t = .ok sm ∧ moveFromSan t b = .ok mv := san_text_roundtrip b hv mv hl
+
+/-- C09 (distinct legal moves get distinct texts) -/
+theorem san_output_injective (b : Board) (hv : Valid b) (mv1 mv2 : Move) (hl1 : Legal b mv1) (hl2 : Legal b mv2)
+    (sm1 sm2 : SanMove) (t : Bytes) (h1 : sanFromMove mv1 b = .ok sm1) (h2 : sanFromMove mv2 b = .ok sm2)
+    (f1 : fmtSan sm1 = .ok t) (f2 : fmtSan sm2 = .ok t) : mv1 = mv2 :=
+  san_text_injective b hv mv1 mv2 hl1 hl2 sm1 sm2 t h1 h2 f1 f2
 
 end Owl.Props.C09
